@@ -28,6 +28,7 @@ import (
 	"mime"
 	"mime/multipart"
 	"net/http"
+	"net/http/httputil"
 	"net/url"
 	"strings"
 	"sync"
@@ -772,6 +773,10 @@ func postData(req *http.Request, logBody bool) (*PostData, error) {
 	br, err := mv.BodyReader()
 	if err != nil {
 		return nil, err
+	}
+	// The snapshot keeps the transfer coding; the post data is the body itself.
+	if tec := len(req.TransferEncoding); tec > 0 && req.TransferEncoding[tec-1] == "chunked" {
+		br = ioutil.NopCloser(httputil.NewChunkedReader(br))
 	}
 
 	switch mt {
